@@ -9,18 +9,31 @@ embedder's `Clients::disconnect(endpoint, Some(id) | None)` may fall anywhere af
    OthersUnaffected and, under weak fairness, RevokedEventuallyGone.
 2. Anti-vacuity: the code as written (FixRevoke = FALSE: `disconnect` returns false for an unknown
    connection, nothing remembered) is refuted by TLC (RevokedNotServed; Admit, DiscId, Register).
-3. Mode C binding: TLC enumerates every complete schedule (word) of admit / register / disconnect
-   steps of a target connection and a bystander (thorough: plus a duplicate connection of the target
-   endpoint); vh_relayauth c08 forces each word onto a real `Server::spawn` on 127.0.0.1 with real
+   `Clients::register` is also modelled split at its entry lock (RegisterLock; RegisterBody;
+   RegisterUnlock) with disconnect calls issued while the lock is held (DiscIdCall/Ret, DiscKeyCall/Ret:
+   the call waits and is never lost: BlockedCallsReturn); the non-waiting variant TryLock = TRUE
+   (`try_get`, locked entry treated as absent) is refuted as well.
+3. Mode C binding: TLC enumerates complete schedules (words) in three families - (a) every
+   interleaving of admit / register / one disconnect for a target and a bystander; (b) three
+   registered connections of one endpoint + bystander, revoked one by id, all by endpoint, and in
+   pairs; (c) the register-lock family: set-up in order with the register of t / t2 split at the
+   entry lock and the disconnect (by id, by endpoint) issued at every position, including while a
+   register of the same endpoint holds the lock (thorough: more connections / two disconnects in
+   (a) and (c)); vh_relayauth c08 forces each word onto a real `Server::spawn` on 127.0.0.1 with real
    `ClientBuilder` clients: the accept task is held at the pause point
    `relay.accept.admitted:<endpoint>` (between authorize_with and Clients::register), the connection
    id comes from the recording AccessControl, `clients().disconnect(..)` is called at the word's
-   position, the pause point is released and the `relay.accept.registered` event awaited.  Then every
+   position, the pause point is released and the `relay.accept.registered` event awaited.  For family
+   (c) the accept task is additionally held at the sync pause point `relay.register.locked:<endpoint>`
+   inside the entry critical section of `Clients::register` (DashMap entry lock held, multi-thread
+   runtime) and the racing `disconnect` is called from its own thread; it must come back once the
+   pause point is released.  Then every
    connection is probed (ping -> pong within 10 s, datagram from the bystander delivered).  The model's
    `served` map for the required design is the oracle.
 
-VIOLATION: a connection the model says is revoked still answers pings (`revoked_still_served`), or a
-connection the model says is untouched does not (`bystander_lost`).  The return value of `disconnect`
+VIOLATION: a connection the model says is revoked still answers pings (`revoked_still_served`), a
+connection the model says is untouched does not (`bystander_lost`), or a connection that was shut down
+has not exactly one on_disconnect / a served one has any (`on_disconnect_count`).  The return value of `disconnect`
 is recorded but not judged (the property does not speak about it).
 
 Genuine defect found (known finding C08_revoke_before_register, open): every word in which the
@@ -40,6 +53,14 @@ this check ends with 40 evaluations, 0 known-finding hits, exit 0 (and C07 still
 Mutation self-test (2026-09-22): `Clients::disconnect(.., Some(id))` finds the client but no longer
 calls `start_shutdown()` -> VIOLATION kind=revoked_still_served window=registered by=id (a different
 signature than the known finding, which is still reported as KNOWN-FINDING); undone -> exit 0.
+
+Independent breaking changes (2026-09-22, `bin/seedtest`, scratch worktree, shared /repo untouched):
+seeded/_incoming/C08/patch.diff (`disconnect(endpoint, None)` stops after the first connection) ->
+VIOLATION revoked_still_served window=registered by=key in family (b); patch2.diff (`try_get`, a
+locked entry is treated as absent) -> VIOLATION revoked_still_served window=registered by=id
+lock_held_at_call=True in family (c) (the call returns false before the lock is released).  Neither
+matches the known finding.  Before families (b), (c) and the register-lock hook existed both passed
+the quick tier.
 """
 import json
 
@@ -55,13 +76,13 @@ META = {
             "that a revoked connection is never served afterwards and eventually leaves the registry while others are "
             "untouched.  Each complete schedule is then imposed on a real Server::spawn with real clients by holding the "
             "accept task at the pause point, and the revoked / untouched connections are probed with pings and datagrams.",
-    "note": "\"Stops being served\" is read as: a ping sent after the schedule gets no pong (stream closed or 10 s silence).  "
+    "note": "Quick tier: 40 interleaving words + 13 duplicate-connection words + 21 register-lock words.  \"Stops being served\" is read as: a ping sent after the schedule gets no pong (stream closed or 10 s silence).  "
             "Same-endpoint connections are admitted and released in FIFO order (pause gate is per endpoint).  Bounded: 2 "
             "(quick) / 3 (thorough) connections, 1 / 2 disconnect requests.",
     "design_ref": "§6 C08, §7, Appendix A.6",
 }
 
-KEYOF = {"t": "A", "t2": "A", "b": "B"}
+KEYOF = {"t": "A", "t2": "A", "t3": "A", "b": "B"}
 
 
 def window(word, c, keyof):
@@ -70,9 +91,10 @@ def window(word, c, keyof):
     for i, s in enumerate(word):
         if s["op"] == "admit" and s["x"] == c:
             adm = i
-        elif s["op"] == "register" and s["x"] == c:
+        elif s["op"] in ("register", "reg_unlock") and s["x"] == c:
             reg = i
-        elif disc is None and ((s["op"] == "disc_id" and s["x"] == c) or (s["op"] == "disc_key" and s["x"] == keyof[c])):
+        elif disc is None and ((s["op"] in ("disc_id", "disc_id_ret") and s["x"] == c)
+                               or (s["op"] in ("disc_key", "disc_key_ret") and s["x"] == keyof[c])):
             if adm is not None:
                 disc = i
     if disc is None:
@@ -101,14 +123,23 @@ def judge(ctx, c, o):
         elif not exp and got == "pong":
             n += 1
             w = window(c["word"], name, c["keyof"])
-            by = "id" if any(s["op"] == "disc_id" and s["x"] == name for s in c["word"]) else "key"
-            ctx.report({"kind": "revoked_still_served", "window": w, "by": by, "conn": name},
+            by = "id" if any(s["op"].startswith("disc_id") and s["x"] == name for s in c["word"]) else "key"
+            blocked = any(s["op"].endswith("_call") for s in c["word"])
+            ctx.report({"kind": "revoked_still_served", "window": w, "by": by, "conn": name, "lock_held_at_call": blocked},
                        "disconnect (by %s) of connection %s was requested while it was %s, yet it still answers pings after: %s"
                        % (by, name, w.replace("_", " "), wstr(c["word"])), c)
         elif exp and agree and name in c.get("fwd_targets", []) and name in o["fwd"] and not o["fwd"][name]:
             n += 1
             ctx.report({"kind": "datagram_not_forwarded", "conn": name},
                        "served connection %s did not receive the bystander's datagram after: %s" % (name, wstr(c["word"])), c)
+        else:
+            # the policy hears of the disconnect of a connection that was shut down, exactly once; of no other
+            nd = o["ac"].count("disconnect:%s" % name)
+            if (not exp and got == "closed" and nd != 1) or (exp and nd != 0):
+                n += 1
+                ctx.report({"kind": "on_disconnect_count", "conn": name, "count": nd, "served": exp},
+                           "connection %s (%s) has %d on_disconnect callbacks after: %s"
+                           % (name, "still served" if exp else "shut down", nd, wstr(c["word"])), c)
     return n
 
 
@@ -145,26 +176,51 @@ def run(ctx):
         obs = execute(ctx, [rep], "c08-replay")
         judge(ctx, rep, obs[0])
         return
-    acts = ["Admit", "Register", "DiscId", "DiscKey", "Serve", "ActorExit"]
-    # 1. required design, exhaustive (safety + liveness)
-    ctx.tlc("relay", "MC_RelayRevoke", cfg="RelayRevoke.cfg", mode="mc", workers=4,
-            constants={"MaxDisc": ctx.pick(2, 3), "FixRevoke": "TRUE"}, require_actions=acts, timeout=1800)
-    # 2. the code as written is refuted
-    ctx.tlc("relay", "MC_RelayRevoke", cfg="RelayRevoke.cfg", mode="mc", workers=2,
-            constants={"MaxDisc": 1, "FixRevoke": "FALSE"}, expect_violation="RevokedNotServed", timeout=600)
+    acts = ["Admit", "Register", "RegisterLock", "RegisterBody", "RegisterUnlock", "DiscId", "DiscKey", "DiscIdCall", "DiscIdRet",
+            "DiscKeyCall", "DiscKeyRet", "Serve", "ActorExit"]
+    # 1. required design, exhaustive: safety, then liveness; t2's register is split into lock / body / unlock
+    ctx.tlc("relay", "MC_RelayRevoke", cfg="RelayRevoke_safety.cfg", mode="mc", workers=4,
+            constants={"MaxDisc": ctx.pick(2, 3), "FixRevoke": "TRUE", "TryLock": "FALSE", "SplitConns": ctx.pick('{"t2"}', '{"t", "t2"}')},
+            require_actions=acts, timeout=1800)
+    ctx.tlc("relay", "MC_RelayRevoke", cfg="RelayRevoke.cfg", mode="mc", workers=4, coverage=False,
+            constants={"MaxDisc": ctx.pick(1, 2), "FixRevoke": "TRUE", "TryLock": "FALSE", "SplitConns": '{"t2"}'}, timeout=1800)
+    # 2. the code as written is refuted, and so is a disconnect that does not wait for the entry lock
+    ctx.tlc("relay", "MC_RelayRevoke", cfg="RelayRevoke_safety.cfg", mode="mc", workers=2,
+            constants={"MaxDisc": 1, "FixRevoke": "FALSE", "TryLock": "FALSE", "SplitConns": "{}"},
+            expect_violation="RevokedNotServed", timeout=600)
+    ctx.tlc("relay", "MC_RelayRevoke", cfg="RelayRevoke_safety.cfg", mode="mc", workers=2,
+            constants={"MaxDisc": 1, "FixRevoke": "TRUE", "TryLock": "TRUE", "SplitConns": '{"t2"}'},
+            expect_violation="RevokedNotServed", timeout=600)
     # 3. schedules
     cases = []
-    gens = [{"Conns": '{"t", "b"}', "Targets": '{"t"}', "MaxDisc": 1}]
+    free = {"SplitConns": "{}", "InOrder": "FALSE", "DiscAfterSetup": "FALSE"}
+    dup3 = {"Conns": '{"t", "t2", "t3", "b"}', "Targets": '{"t", "t2", "t3"}', "SplitConns": "{}", "InOrder": "TRUE", "DiscAfterSetup": "TRUE"}
+    gens = [
+        # every interleaving of admit / register / one disconnect for a target and a bystander
+        ("interleavings", dict(free, Conns='{"t", "b"}', Targets='{"t"}', MaxDisc=1)),
+        # three registered connections of one endpoint + bystander: revoke one by id, all by endpoint, and pairs
+        ("duplicates", dict(dup3, MaxDisc=1)),
+        ("duplicates", dict(dup3, MaxDisc=2)),
+        # register split at the entry lock: the disconnect is issued while a register of the endpoint holds it
+        ("register_lock", {"Conns": '{"t", "t2", "b"}', "Targets": '{"t", "t2"}', "MaxDisc": 1, "SplitConns": '{"t", "t2"}',
+                           "InOrder": "TRUE", "DiscAfterSetup": "FALSE"}),
+    ]
     if not ctx.quick:
-        gens.append({"Conns": '{"t", "t2", "b"}', "Targets": '{"t", "t2"}', "MaxDisc": 1})
-        gens.append({"Conns": '{"t", "b"}', "Targets": '{"t", "b"}', "MaxDisc": 2})
-    for g in gens:
-        res = ctx.tlc("relay", "MC_RelayRevoke", cfg="RelayRevoke_gen.cfg", mode="gen", constants=g, timeout=1800)
+        gens.append(("interleavings", dict(free, Conns='{"t", "t2", "b"}', Targets='{"t", "t2"}', MaxDisc=1)))
+        gens.append(("interleavings", dict(free, Conns='{"t", "b"}', Targets='{"t", "b"}', MaxDisc=2)))
+        gens.append(("register_lock", {"Conns": '{"t", "t2", "b"}', "Targets": '{"t", "t2"}', "MaxDisc": 2, "SplitConns": '{"t", "t2", "b"}',
+                                       "InOrder": "TRUE", "DiscAfterSetup": "FALSE"}))
+    families = {}
+    for fam, g in gens:
+        res = ctx.tlc("relay", "MC_RelayRevoke", cfg="RelayRevoke_gen.cfg", mode="gen", constants=g, timeout=1800, coverage=False)
+        families[fam] = families.get(fam, 0) + len(res.replays)
         for r in res.replays:
             r["keyof"] = {c: KEYOF[c] for c in r["served"]}
             # datagrams addressed to an endpoint reach its active (newest registered) connection only
             r["fwd_targets"] = sorted(c for c in r["active"].values() if c != "none" and c != "b" and r["served"][c])
+            r["family"] = fam
             cases.append(r)
+    ctx.cov["schedules_by_family"] = families
     if not cases:
         raise ToolError("TLC generated no schedules")
     obs = execute(ctx, cases, "c08")
